@@ -180,7 +180,7 @@ def opsC14 : List (String × Handler) := [
         let body ← fmtOut r.1 false
         return s!"{r.2.2} {r.2.1.patienceCount} " ++ fmt body
       | _ => throw "arity"),
-  -- c14.stepper steps patience pc0 | decreasing tol loss…  → continual flags after each step (0/1), final patience_count
+  -- c14.stepper steps patience pc0 | decreasing tol loss…  (reset(), then patience_count := pc0) → continual flags after each step (0/1), final patience_count
   ("c14.stepper", fun ts => do
       match ts with
       | steps :: pat :: pc0 :: rest =>
@@ -188,7 +188,7 @@ def opsC14 : List (String × Handler) := [
         let a ← nums rest
         match a with
         | dec :: tol :: losses =>
-          let st0 : Stepper F := (⟨steps, pat, dec, tol, none, 0, pc0, true⟩ : Stepper F).reset
+          let st0 : Stepper F := { (⟨steps, pat, dec, tol, none, 0, 0, false⟩ : Stepper F).reset with patienceCount := pc0 }
           let (st, flags) := losses.foldl (fun (acc : Stepper F × List Nat) l =>
             let s := acc.1.step l; (s, acc.2 ++ [if s.continual then 1 else 0])) (st0, [])
           return fmtNats (flags ++ [st.patienceCount])
